@@ -492,7 +492,7 @@ def pt_many_cases(tier, seed):
                 for pl, v in zip(places, vals):
                     dims[pl] = v
                 for sys_ in ([places[1]], [places[2], places[0]], [7, places[1], 4], list(range(1, n, 2))):
-                    yield {"dims": dims, "sys": sys_}
+                    yield {"dims": dims, "sys": list(dict.fromkeys(sys_))}
     for n in (8, 9, 10):
         for sys_ in PT_MANY[n]:
             yield {"n": n, "sys": sys_}
